@@ -90,4 +90,71 @@ def nest (maxDepth : Int) (cur : Nat) : List StartMethod → Nat × Option Reaso
     | .ok d => nest maxDepth d rest
     | .error why => (cur, some why)
 
+/-! ## the life of one executor in a process whose depth global changes
+
+`_CURRENT_DEPTH` is a module global of the creating process.  A freshly started interpreter
+has `_CURRENT_DEPTH = 0`; `_process_worker` assigns it the shipped value **after** it has run
+the initializer, so between the construction of an executor and the moments its workers are
+spawned (lazily at the first `submit`, on a resize, on a respawn after an idle time-out) the
+global may have changed.  The executor object stores nothing about depth:
+`_adjust_process_count` reads the global at every spawn. -/
+
+/-- events in the life of one executor -/
+inductive LifeOp
+  | setDepth (d : Nat)          -- the creating process assigns `_CURRENT_DEPTH = d`
+  | ensure                      -- `_ensure_executor_running` (submit): spawn up to `_max_workers`
+  | resize (m : Nat)            -- `_resize(m)`: surplus workers leave, missing ones are spawned
+  | exit (k : Nat)              -- `k` workers leave (idle time-out); the manager respawns up to the size
+deriving Repr, DecidableEq
+
+structure Life where
+  cur : Nat                     -- `_CURRENT_DEPTH` of the creating process, now
+  maxWorkers : Nat              -- `_max_workers`
+  alive : Nat                   -- `len(_processes)`
+  started : Bool                -- the manager thread exists (some `ensure` happened)
+deriving Repr, DecidableEq
+
+/-- `_adjust_process_count`: the `current_depth` arguments of the workers it spawns -/
+def adjust (s : Life) : Life × List Nat :=
+  ({ s with alive := max s.alive s.maxWorkers }, List.replicate (s.maxWorkers - s.alive) (shippedDepth s.cur))
+
+/-- one event: new state and the depth arguments of the workers spawned by it -/
+def lifeStep (s : Life) : LifeOp → Life × List Nat
+  | .setDepth d => ({ s with cur := d }, [])
+  | .ensure =>
+    let (s', out) := adjust s
+    ({ s' with started := true }, out)
+  | .resize m =>
+    if m = s.maxWorkers then (s, [])                     -- `elif max_workers == self._max_workers: return`
+    else if s.started then adjust { s with maxWorkers := m, alive := min s.alive m }
+    else ({ s with maxWorkers := m }, [])
+  | .exit k =>
+    if s.started then adjust { s with alive := s.alive - k } else (s, [])
+
+/-- a whole history: the batches of depth arguments, one per event -/
+def lifeRun (s : Life) : List LifeOp → List (List Nat)
+  | [] => []
+  | op :: rest => (lifeStep s op).2 :: lifeRun (lifeStep s op).1 rest
+
+/-- the value of the creating process's depth global when event `i` of the history happens -/
+def curAt (cur : Nat) : List LifeOp → Nat → Nat
+  | [], _ => cur
+  | _ :: _, 0 => cur
+  | .setDepth d :: rest, i + 1 => curAt d rest i
+  | _ :: rest, i + 1 => curAt cur rest i
+
+/-- An executor constructed (with `workers` workers) by a process whose depth global is `d0`
+    at that moment, then the history: the constructor's guard, then the batches. -/
+def life (sm : StartMethod) (maxDepth : Int) (d0 workers : Nat) (ops : List LifeOp) :
+    Except Reason (List (List Nat)) :=
+  match checkMaxDepth sm maxDepth d0 with
+  | .ok => .ok (lifeRun { cur := d0, maxWorkers := workers, alive := 0, started := false } ops)
+  | .recursionError why => .error why
+
+/-- `_process_worker(..., initializer, ..., current_depth)` in an interpreter whose depth global
+    is `fresh` (0 in a new process): the value of the global while the initializer runs, and
+    while tasks run.  The assignment is the first thing the worker does: the initializer already
+    runs at the worker's depth (it ran before the assignment until defect D28 was repaired). -/
+def workerStartup (_fresh currentDepthArg : Nat) : Nat × Nat := (workerDepth currentDepthArg, workerDepth currentDepthArg)
+
 end LokyModel.Depth
